@@ -24,23 +24,27 @@ pub fn fmt_plain(
     write!(w, "{}", r.args())
 }
 
-/// A message whose Display implementation logs another record (recursive logging on one thread).
+/// A message whose Display implementation logs another record (recursive logging on one thread); `chain` holds
+/// the messages of the nested records, outermost first: each of them logs the rest of the chain while it is formatted.
 struct RecMsg<'a> {
     l: &'a dyn log::Log,
-    inner: String,
+    chain: Vec<String>,
     outer: String,
     lvl: log::Level,
 }
 impl std::fmt::Display for RecMsg<'_> {
     fn fmt(&self, f: &mut std::fmt::Formatter<'_>) -> std::fmt::Result {
-        self.l.log(
-            &log::Record::builder()
-                .args(format_args!("{}", self.inner))
-                .level(self.lvl)
-                .target("m")
-                .module_path(Some("m"))
-                .build(),
-        );
+        if let Some((first, rest)) = self.chain.split_first() {
+            let inner = RecMsg { l: self.l, chain: rest.to_vec(), outer: first.clone(), lvl: self.lvl };
+            self.l.log(
+                &log::Record::builder()
+                    .args(format_args!("{}", inner))
+                    .level(self.lvl)
+                    .target("m")
+                    .module_path(Some("m"))
+                    .build(),
+            );
+        }
         f.write_str(&self.outer)
     }
 }
@@ -392,7 +396,7 @@ pub fn run_scenario(sc: &Value, ex: &mut Exec) -> usize {
     for st in steps {
         let op = st["op"].as_str().unwrap_or("?").to_string();
         let mut ev = json!({"ev": op});
-        let mut pending_inner: Option<(u64, usize)> = None;
+        let mut pending_inner: Vec<(u64, usize)> = Vec::new();
         let dir = root.join(&cfg.subdir);
         let mut sync_point = false;
         let ret: String = match op.as_str() {
@@ -421,13 +425,21 @@ pub fn run_scenario(sc: &Value, ex: &mut Exec) -> usize {
                 // which are too short to carry it, count as well) - the same numbering the specification uses
                 // recursive: the message logs an inner record while it is formatted; the inner record is written
                 // first and takes the first id, the outer one the next
-                let recursive = st.get("recursive").and_then(|v| v.as_bool()).unwrap_or(false) && run.logger.is_some();
+                let depth = match st.get("recursive") {
+                    Some(Value::Bool(true)) => 1,
+                    Some(v) => v.as_u64().unwrap_or(0) as usize,
+                    None => 0,
+                };
+                let recursive = depth > 0 && run.logger.is_some();
                 let ilen = st.get("ilen").and_then(|v| v.as_u64()).unwrap_or(12).max(9 + le as u64) as usize;
-                let mut inner_msg = String::new();
+                // the innermost record is written first: ids in the order of writing; chain = outermost nested first
+                let mut chain: Vec<String> = Vec::new();
                 if recursive {
-                    next_id += 1;
-                    inner_msg = obs::message(next_id, ilen, le);
-                    pending_inner = Some((next_id, ilen));
+                    for _ in 0..depth {
+                        next_id += 1;
+                        chain.insert(0, obs::message(next_id, ilen, le));
+                        pending_inner.push((next_id, ilen));
+                    }
                 }
                 next_id += 1;
                 let id = if anon { 0 } else { next_id };
@@ -457,7 +469,7 @@ pub fn run_scenario(sc: &Value, ex: &mut Exec) -> usize {
                             if st.get("query").and_then(|v| v.as_bool()).unwrap_or(false) {
                                 let _ = l.enabled(&md);
                             }
-                            let rm = RecMsg { l: &**l, inner: inner_msg.clone(), outer: msg.clone(), lvl };
+                            let rm = RecMsg { l: &**l, chain: chain.clone(), outer: msg.clone(), lvl };
                             let plain_args = format_args!("{}", msg);
                             let rec_args = format_args!("{}", rm);
                             l.log(
@@ -1045,9 +1057,9 @@ pub fn run_scenario(sc: &Value, ex: &mut Exec) -> usize {
             hh.record.store(was, Ordering::SeqCst);
             ev["obs"] = o;
         }
-        if let Some((iid, ilen)) = pending_inner {
-            if ev["ret"] == "ok" {
-                // the inner record of a recursive call: an event of its own, before the outer one, without observation
+        if ev["ret"] == "ok" {
+            for (iid, ilen) in pending_inner {
+                // a nested record of a recursive call: an event of its own, before the outer one, without observation
                 let mut iv = ev.clone();
                 iv["id"] = json!(iid);
                 iv["len"] = json!(ilen);
